@@ -739,8 +739,9 @@ func refParseRequest(s []byte, pos int) *refReq {
 			if cr.Class == "truncated" {
 				return reject("truncated")
 			}
-			// chunk grammar is C23's business
-			return unjudged("chunked-body:" + cr.Class)
+			// a chunked body that must be rejected: accepting the request would
+			// give it boundaries no RFC 7230 parser assigns
+			return reject("chunked-body:" + cr.Class)
 		}
 		for _, n := range cr.Notes {
 			r.note("body-" + n)
